@@ -185,11 +185,16 @@ def I7 (s : Core) : Option String :=
   s.nodes.findSome? (fun n => (n.allocs.filter (!·.foreign)).findSome? (fun na =>
     match s.findApp na.app with
     | none =>
-      -- known class: the application terminated (Failed / Completed) and left the partition while this allocation was
-      -- still waiting for the shim's release confirmation
-      if s.apps.any (fun a => !a.live && a.id == na.app && a.items.any (fun i => i.key == na.key && i.bound)) then
-        some s!"I7t allocation of a terminated application still on its node {na.key}@{n.id}"
-      else some s!"I7 allocation of unknown application {na.key}@{n.id}"
+      -- the application terminated and left the partition while this allocation was still on a node. Three different
+      -- situations, three classes: a real allocation of a Failed application (known), of a Completed one (known, C10),
+      -- and a placeholder that outlives its application (C06)
+      match s.apps.find? (fun a => !a.live && a.id == na.app && a.items.any (fun i => i.key == na.key && i.bound)) with
+      | some a =>
+        if na.ph then some s!"I7p placeholder of a terminated application still on its node {na.key}@{n.id}"
+        else if a.log.contains "Failed" then some s!"I7t allocation of a terminated application still on its node {na.key}@{n.id}"
+        else some s!"I7c allocation of a completed application still on its node {na.key}@{n.id}"
+      | none => some s!"I7 allocation of unknown application {na.key}@{n.id}"
+
     | some a => match a.items.find? (·.key == na.key) with
       | none => some s!"I7 allocation not listed by its application {na.key}@{n.id}"
       | some i =>
